@@ -50,6 +50,8 @@ pub fn parse_value(s: &str) -> DataValue {
     match s.split_once(':') {
         Some(("i", v)) => DataValue::Int(v.parse().unwrap_or(0)),
         Some(("s", v)) => DataValue::String(v.to_string()),
+        // a string given as the hex of its UTF-8 (white space at its edges, line breaks: what a script line cannot carry)
+        Some(("x", v)) => DataValue::String(unhex_s(v)),
         Some(("b", v)) => DataValue::Bool(v == "1"),
         Some(("f", v)) => DataValue::Float(v.parse::<i64>().unwrap_or(0) as f64 / 4.0),
         Some(("d", v)) => DataValue::Datetime(DateTime::from_timestamp_millis(v.parse().unwrap_or(0)).unwrap().fixed_offset()),
@@ -60,6 +62,7 @@ pub fn parse_value(s: &str) -> DataValue {
 pub fn show_value(v: &DataValue) -> String {
     match v {
         DataValue::Int(i) => format!("i:{}", i),
+        DataValue::String(s) if s.is_empty() || s.chars().any(|c| c.is_whitespace()) => format!("x:{}", hex(s)),
         DataValue::String(s) => format!("s:{}", s),
         DataValue::Bool(b) => format!("b:{}", *b as u8),
         DataValue::Null => "n".into(),
@@ -884,6 +887,7 @@ impl Gen {
             6 => format!("l:i:{}|s:v{}|f:{}", self.rng.below(3), self.rng.below(3), self.rng.below(8)),
             7 => format!("s:{}", ["\u{e9}t\u{e9}", "\u{1F600}", "q\"uote", "back\\slash", "semi;colon", "comma,x", "tab\tx"][self.rng.below(7)].replace(' ', "_")),
             8 => format!("i:{}", -(self.rng.below(1000) as i64)),
+            9 => format!("x:{}", hex(["  lead", "trail  ", " both ", "line\n", "\nline", "tab\t", " ", "\t", "two  words", "a\r\nb"][self.rng.below(10)])),
             _ => format!("s:v{}", self.rng.below(3)),
         };
         if self.force_ids || self.rng.chance(15) {
